@@ -301,6 +301,8 @@ func check(c Case, o *vf.Obs) error {
 	return nil
 }
 
+var decodeMu sync.Mutex
+
 func once(c Case, o *vf.Obs, classify bool) error {
 	_, _, T, err := sg.Chain(sg.Flatten(c.Profile), time.Unix(1, 0))
 	if err != nil {
@@ -315,7 +317,12 @@ func once(c Case, o *vf.Obs, classify bool) error {
 		var holder struct {
 			F func() (core.Schedule, error) `config:"rps"`
 		}
-		if err := pand.Decode(map[string]any{"rps": sg.ConfigMap(c.Profile)}, &holder); err != nil {
+		// pandora decodes its config once, on one goroutine, before anything runs (decode hooks are compiled lazily into
+		// package variables on the first call): cases that run concurrently in one process take turns here
+		decodeMu.Lock()
+		err := pand.Decode(map[string]any{"rps": sg.ConfigMap(c.Profile)}, &holder)
+		decodeMu.Unlock()
+		if err != nil {
 			return fmt.Errorf("valid schedule config rejected: %v", err)
 		}
 		factory = holder.F
